@@ -83,7 +83,7 @@ func (w *world) query(t []string) string {
 		}
 		return strings.Join(items, ",")
 	}
-	return "bad-op"
+	return w.queryScope(t)
 }
 
 func execWorld(in, out string) {
